@@ -268,11 +268,18 @@ def W1_mv_mutators(ctx):
                 f = f or facts.fn(b)
                 for p in f.paths(budget=20000):
                     for e in p.events:
-                        if e.kind == 'call' and e.bb == bl['bb'] and e.d['args'] and mentions_field(e.d['args'][0], 'mv_memory'):
+                        if e.kind == 'call' and e.bb == bl['bb'] and e.d['args'] and (mentions_field(e.d['args'][0], 'mv_memory') or
+                                                                                      (strip(e.d['args'][0]) == ('arg', 1) and 'model::MemoryEntry' in b['fn'] and ' as ' in b['fn'])):
                             [muts[o].add(norm_callee(t['callee']).split('::')[-1]) for o in facts.owners(b['fn'])]
                             break
     expected = {'publish_value': {'entry'}, 'execute_task': {'get_mut'}, 'mark_mv_estimate': {'get_mut'}}
-    ctx.ob('W1', 'model::MVMemory', 'who-mutates-mv-memory', dict(muts) == expected, f'{ {k: sorted(v) for k, v in muts.items()} }',
+    # the estimate marker may have been moved (a private trait method, a helper): its mutation is then attributed to the two
+    # functions that are allowed to mark — execute_task and validate
+    moved = dict(muts)
+    if 'mark_mv_estimate' not in moved and moved.get('validate') == {'get_mut'} and moved.get('execute_task') == {'get_mut'}:
+        moved.pop('validate')
+        moved['mark_mv_estimate'] = {'get_mut'}
+    ctx.ob('W1', 'model::MVMemory', 'who-mutates-mv-memory', dict(muts) == expected or moved == expected, f'{ {k: sorted(v) for k, v in muts.items()} }',
            what='MV memory has three mutators: publish (insert own version), stale-entry removal, estimate marking')
     pv = idb_fn(ctx, 'publish_value')
     bad = []
@@ -290,9 +297,17 @@ def W1_mv_mutators(ctx):
             bad.append(p)
     ctx.ob('W1', pv, 'publish-own-version-and-record-location', not bad, f'{len(bad)} deviating path(s)', site=pv.loc(pv.b['lo']),
            what='a published value is keyed by the writer\'s own txid, carries its incarnation and estimate flag, and its location enters the write set (marking/removal iterate the write set)')
-    mm = ctx.method('scheduler::Scheduler<DB>', 'mark_mv_estimate')
+    try:
+        mm = ctx.method('scheduler::Scheduler<DB>', 'mark_mv_estimate')
+    except AnchorLost:
+        # moved out of Scheduler (e.g. into a private trait on the map type): the one new function that sets `estimate`
+        cands = [b for b in facts.production() if facts.is_new_fn(b['fn']) and body_writes_field(b, 'MemoryEntry.estimate')]
+        if len(cands) != 1:
+            raise
+        mm = ctx.fn(cands[0])
     n = 0
     bad = []
+    key_arg = ('arg', 2)
     for p in feasible(mm.paths()):
         for e in p.events:
             if e.kind == 'assign' and e.d['place'][0] == 'field' and e.d['place'][2].endswith('MemoryEntry.estimate'):
